@@ -639,7 +639,7 @@ func main() {
 	lib.QuietLogs()
 	args := lib.ParseArgs()
 	rnd := lib.NewRand(args.Seed)
-	perEngine := 70
+	perEngine := 120
 	switch args.Tier {
 	case "thorough":
 		perEngine = 2500
